@@ -19,6 +19,7 @@ From TucModel Require Import Base.Bytes Base.ListX Model.Bounds Spec.Resolve Pro
   Tie.Gen_fast_try_from Tie.Bridge_fast_try_from Tie.Gen_stream_try_from Tie.Bridge_stream_try_from
   Model.BoundsParse Spec.BoundsGrammar Tie.RsStr Tie.Gen_side_from_str Tie.Bridge_side_from_str Tie.Gen_ub_from_str Tie.Bridge_ub_from_str
   Tie.RsList Tie.Gen_ubl_unpack Tie.Bridge_ubl_unpack Tie.Gen_ubl_complement Tie.Bridge_ubl_complement
+  Model.CutBytes Spec.BytesMode Tie.Gen_cut_bytes Tie.Bridge_cut_bytes
   Proofs.C13 Proofs.C06 Proofs.C03Full Proofs.C19 Proofs.C18Iff.
 Import ListNotations.
 Local Open Scope Z_scope.
@@ -186,7 +187,28 @@ Proof.
   - unfold from_vec. rewrite E. split; discriminate.
 Qed.
 
+(** C06, the whole of [cut_bytes] as translated: on a non-empty input of fewer than 2^31 bytes and a
+    bounds list that resolves on it, the code succeeds, never panics, and what it has written to stdout
+    is exactly the bytes at the selected positions, bound by bound in request order, with the format text
+    in between - the specification [spec_bytes] written from the statement. *)
+Theorem tie_C06_byte_mode_exact : forall (data : bytes) (o : opt),
+  data <> [] -> Z.of_nat (length data) <= i32_max ->
+  Forall item_nz (items (o_bounds o)) ->
+  Forall (item_resolves (length data)) (items (o_bounds o)) ->
+  gen_cut_bytes data o = Ret (Some tt, spec_bytes (items (o_bounds o)) data).
+Proof.
+  intros data o Hne Hn Hnz Hres.
+  assert (Hl : Forall item_left_nz (items (o_bounds o))).
+  { eapply Forall_impl; [|exact Hnz]. intros [b|f] H; cbn in *; [apply nz_left; exact H | exact I]. }
+  destruct (tie_cut_bytes_model data o Hn Hl Hne) as (r & E & Hr). rewrite E. f_equal.
+  pose proof (C06_exact (o_bounds o) (o_fallback o) data Hne Hnz Hres) as H6. unfold cut_bytes in H6.
+  destruct data as [|d0 data']; [contradiction|].
+  destruct (cut_bytes_items (items (o_bounds o)) (o_fallback o) (d0 :: data')) as [out|]; [|discriminate].
+  injection H6 as <-. exact Hr.
+Qed.
+
 Print Assumptions tie_try_into_range_spec.
+Print Assumptions tie_C06_byte_mode_exact.
 Print Assumptions tie_C15_list_complement.
 Print Assumptions tie_C18_bound_accepted_iff.
 Print Assumptions tie_C19_fixed_memory_eligibility.
